@@ -14,6 +14,7 @@ int run_rc_generic(Ctx &ctx, const char *id, Verdict (*check)(const KV &, Ctx &)
   bool ok = rc::check(id, [&]() {
     KV c = gen();
     ctx.st.evaluations++;
+    if ((ctx.st.evaluations & 255) == 0) ctx.st.flush(false);
     ctx.current(c);
     Verdict v = check(c, ctx);
     if (!v.empty()) {
